@@ -447,6 +447,10 @@ def run(ck: Check):
             l1 = _LD14(4, 1, device="cpu", weight_init="random")
             l1.indices = (torch.tensor([0, 1, 2, 3, 0, 2]), torch.tensor([1, 2, 3, 0, 2, 1]))     # one gate row broadcast over six pairs
             return torch.nn.Sequential(l1, _GS(2, 1.0, device="cpu")), (4,)
+        elif kind == "weight-one-shared-row":
+            l2 = _LD14(4, 6, device="cpu", weight_init="random")
+            l2.weight = torch.nn.Parameter(l2.weight.detach()[:1].clone())      # one gate row broadcast over the six wired pairs
+            return torch.nn.Sequential(l2, _GS(2, 1.0, device="cpu")), (4,)
         elif kind == "container-overrides-call":
             class _CallSeq(torch.nn.Sequential):
                 def __call__(self, x):
@@ -466,7 +470,7 @@ def run(ck: Check):
     import torch.nn.modules.module as _tm
     for kind in ("subclass-forward_python", "subclass-level-weights", "instance-forward", "layer-hook", "layer-pre-hook", "container-hook",
                  "container-instance-forward", "instance-forward_python", "instance-level-weights", "global-forward-hook",
-                 "groupsum-tau-negative-later", "groupsum-k-zero-later", "wiring-longer-than-gates", "container-overrides-call"):
+                 "groupsum-tau-negative-later", "groupsum-k-zero-later", "wiring-longer-than-gates", "weight-one-shared-row", "container-overrides-call"):
         case = {"kind": "modified-layer", "how": kind}
         ck.case(case, nontrivial=True, kind="modified-layer")
         model, shp = _mk_conv_patched() if kind == "instance-level-weights" else _mk("plain" if kind == "global-forward-hook" else kind)
